@@ -9,12 +9,12 @@
      nullspace : exactly cols - rank columns, A*N = 0, columns independent
      solve     : Some(X) => A*X = B; over a field None => rank[A|B] > rank A
      inverse   : Some(X) => A*X = I; over a field None => A singular
-     modsolve  : p-adic solver: Some(X) => A*X = B; None only with a witness q, det(A) = q * PRIME
+     modsolve  : p-adic solver: Some(X) => A*X = B; None only for systems whose determinants have a common factor > 1
      field     : Z/61: canonical residues of arbitrary integers and the field operations *)
 EXTENDS ModArith, Json, IOUtils
 Rec == ndJsonDeserialize(IOEnv.TRACE)
-VARIABLE l
-Init == l = 1 /\ Assert(PrimesOK, "prime table")
+VARIABLES l, rseen
+Init == l = 1 /\ rseen = <<>> /\ Assert(PrimesOK, "prime table")
 NPr == Len(PRIMES)
 NRowsM(A) == Len(A)
 NColsM(A) == IF Len(A) = 0 THEN 0 ELSE Len(A[1])
@@ -85,12 +85,18 @@ InverseOK(e) == LET A == e.a  n == Len(A) IN
    THEN IF e.some THEN FValid(e.out) /\ FProd(FMat(A), e.out) = IdM(n) ELSE DetMod(FMat(A), F) = 0
    ELSE IF e.some THEN ProductExact(A, e.out, IdM(n))
         ELSE (IsField(e.backend) => RankQ(A) < n)
-PrimeDigits == [s |-> 1, d |-> <<3,0,3,7,0,0,0,4,9,3>>]      \* the solver's prime 3 037 000 493
+\* Refusing is allowed only for a system that is singular modulo the solver's prime.  Which prime the solver uses is
+\* not part of the statement (a private constant); what the statement implies is that all refused systems have a common
+\* factor r > 1 in their determinants.  The harness logs r = gcd of the determinants of ALL refused systems of the run
+\* and q with det(A) = q * r; the identity is verified by CRT, r > 1 is read from the digits (det(A) = 0 is singular
+\* modulo every prime and needs no factor), and `rseen` keeps r the same along the trace.
+BigGtOne(x) == x.s = 1 /\ x.d # <<1>> /\ x.d # <<0>> /\ Len(x.d) >= 1
+DetIsProduct(A, q, r) == LET k == NPrimesFor(10 * Len(A) + 2 + BigDigits(q) + BigDigits(r)) IN
+        \A i \in 1..k : DetMod(IntMatMod(A, PRIMES[i]), PRIMES[i]) = (Res(q, PRIMES[i]) * Res(r, PRIMES[i])) % PRIMES[i]
 ModSolveOK(e) == LET A == e.a IN
    IF e.some THEN ProductExact(A, e.out, e.b)
-   ELSE \* refusing is allowed only for systems singular modulo the prime: det(A) = q * PRIME, verified by CRT
-        LET k == NPrimesFor(10 * Len(A) + 2) IN
-        \A i \in 1..k : DetMod(IntMatMod(A, PRIMES[i]), PRIMES[i]) = (Res(e.q, PRIMES[i]) * Res(PrimeDigits, PRIMES[i])) % PRIMES[i]
+   ELSE /\ DetIsProduct(A, e.q, e.r)
+        /\ (e.q.s # 0 => BigGtOne(e.r))
 FieldOK(e) == /\ e.ra \in 0..(F-1) /\ e.ra = Mod(e.a, F) /\ e.rb = Mod(e.b, F)       \* canonical representative of every integer
               /\ e.sum = (e.ra + e.rb) % F /\ e.diff = Mod(e.ra - e.rb, F) /\ e.prod = (e.ra * e.rb) % F
               /\ e.neg = Mod(0 - e.ra, F) /\ e.iszero = (e.ra = 0)
@@ -125,10 +131,13 @@ BaryOK(e) == /\ \A k \in 1..e.dim : e.pos[1][k].n.s = 0                         
 Check(e) == CASE e.ev = "det" -> DetOK(e) [] e.ev = "rank" -> RankOK(e) [] e.ev = "nullspace" -> NullOK(e)
               [] e.ev = "solve" -> SolveOK(e) [] e.ev = "inverse" -> InverseOK(e) [] e.ev = "modsolve" -> ModSolveOK(e)
               [] e.ev = "field" -> FieldOK(e) [] e.ev = "barycentric" -> BaryOK(e) [] e.ev = "echelon" -> TRUE [] OTHER -> FALSE
+IsRefusal(e) == e.ev = "modsolve" /\ "panic" \notin DOMAIN e /\ ~e.some
 Next == /\ l <= Len(Rec)
         /\ ("panic" \notin DOMAIN Rec[l] /\ Check(Rec[l])) = TRUE
+        /\ (IsRefusal(Rec[l]) /\ rseen # <<>> => rseen[1] = Rec[l].r) = TRUE
+        /\ rseen' = IF IsRefusal(Rec[l]) /\ rseen = <<>> THEN <<Rec[l].r>> ELSE rseen
         /\ l' = l + 1
-Spec == Init /\ [][Next]_l
+Spec == Init /\ [][Next]_<<l, rseen>>
 Accepted == LET d == TLCGet("stats").diameter IN
    IF d - 1 = Len(Rec) THEN PrintT(<<"TRACE", "accepted", d - 1>>)
    ELSE PrintT(<<"TRACE", "rejected", d>>)
